@@ -140,7 +140,7 @@ static void case_writer(const args_t *a, long c, rng_t *r0)
 	long inst = c / 8, sidx = c % 8;
 	rng_t rr; case_rng(&rr, a, inst); rng_t *r = &rr;
 	wcfg_t cfg; gen_wcfg(r, &cfg); cfg.block_size = 1024; cfg.level = LEVEL_DEFAULT; if (cfg.prefix_len > 100) cfg.prefix_len = 13;
-	int psize = 1 + rndn(r, 5), two = rndn(r, 3) == 0;
+	int psize = (int)rndn(r, 6), two = rndn(r, 3) == 0;      /* 0: a pool object without threads (result handler exists, jobs run inline) */
 	model_t m[2]; char ref[2][400], out[2][400]; size_t rl[2]; uint8_t *rb[2];
 	for (int w = 0; w <= two; w++) {
 		make_blocks_model(r, &m[w], 12 + rndn(r, 60));
@@ -185,7 +185,7 @@ static void case_sorter(const args_t *a, long c, rng_t *r0)
 	(void)r0;
 	long inst = c / 8, sidx = c % 8;
 	rng_t rr; case_rng(&rr, a, inst); rng_t *r = &rr;
-	int psize = 1 + rndn(r, 4), mode = rndn(r, 4);           /* 0,1 iterate; 2 destroy without iterating; 3 sorter_write */
+	int psize = (int)rndn(r, 5), mode = rndn(r, 4);           /* 0,1 iterate; 2 destroy without iterating; 3 sorter_write */
 	size_t n = 10 + rndn(r, 60), U = 5 + rndn(r, 40), limit = 200 + rndn(r, 800);
 	g_next_id = 1;
 	model_t adds; model_init(&adds);
